@@ -58,6 +58,8 @@ def idna_table(url):
 
 
 def encode(case):
+    if case.get("redirect_to"):
+        return [S(case["url"]), [], Opt(None, S), [], B(case["proxy"] == "http")]
     return [S(case["url"]), idna_table(case["url"]), Opt(case["variant"], S), idna_table(case["variant"] or ""), B(case["proxy"] == "http")]
 
 
@@ -84,7 +86,52 @@ def run_one(pm, net, url, rec):
             "port": rec.get("port"), "sni": rec["sni"]}
 
 
+def in_model_domain(case):
+    """a redirect from one URL to another is two requests: judged by the oracle only (the model is about one URL)"""
+    return not case.get("redirect_to")
+
+
+def impl_redirect(case):
+    """url answers 302 with Location: redirect_to; what is written for the second request?"""
+    import urllib3
+    from netsim.fakesock import installed, Net, Peer, http_response
+    heads = []
+
+    class NetR(Net):
+        def resolve(self, host, port):
+            return super().resolve("10.0.0.9", port)
+
+        def connect(self, sock, host, port):
+            buf = bytearray()
+
+            def on_data(peer, data):
+                buf.extend(data)
+                while b"\r\n\r\n" in buf:
+                    head, _, rest = bytes(buf).partition(b"\r\n\r\n")
+                    del buf[:len(head) + 4]
+                    heads.append(head)
+                    if len(heads) == 1:
+                        peer.send(http_response(302, "Found", [("Location", case["redirect_to"])], b""))
+                    else:
+                        peer.send(http_response(200, "OK", [], b"ok"))
+            return Peer(on_data)
+    problems = []
+    try:
+        with installed(NetR()):
+            pm = urllib3.ProxyManager("http://proxy.example:3128") if case["proxy"] == "http" else urllib3.PoolManager()
+            pm.request("GET", case["url"], headers=dict(case.get("headers") or {}) or None)
+    except Exception as e:
+        problems.append("a raw %s: %s" % (type(e).__name__, str(e)[:100]))
+    _STASH[id(case)] = problems
+    if len(heads) < 2:
+        return [8]
+    h2 = heads[1]
+    return [2, S(h2.split(b"\r\n")[0].decode("latin-1")), [S(l.decode("latin-1")) for l in h2.split(b"\r\n")[1:] if l.lower().startswith(b"host:")]]
+
+
 def impl(case):
+    if case.get("redirect_to"):
+        return impl_redirect(case)
     import urllib3
     import urllib3.connection as uconn
     from netsim.fakesock import installed, Net, Peer, http_response
@@ -178,7 +225,24 @@ def expected_host(h):
     return ".".join(labels), False
 
 
+def oracle_redirect(case, obs):
+    problems = _STASH.pop(id(case), [])
+    if problems:
+        return problems[0]
+    if obs[0] != 2:
+        return "the redirect was not followed (%r)" % (obs,)
+    from urllib.parse import urlsplit
+    u = urlsplit(case["redirect_to"])
+    want = u.hostname + ("" if u.port in (None, 80) else ":%d" % u.port)
+    hosts = [_txt(h).split(":", 1)[1].strip().lower() for h in obs[2]]
+    if hosts not in ([want], [want + ":80"]):
+        return "the request for %s carried Host: %s" % (case["redirect_to"], ", ".join(hosts) or "(none)")
+    return None
+
+
 def oracle(case, obs):
+    if case.get("redirect_to"):
+        return oracle_redirect(case, obs)
     problems = _STASH.pop(id(case), [])
     if problems:
         return problems[0]
@@ -266,6 +330,12 @@ def oracle(case, obs):
 
 
 def signature(case, obs, msg):
+    if case.get("redirect_to") and case.get("proxy") == "http" and "carried Host:" in (msg or ""):
+        return {"kind": "stale-host-after-redirect-through-proxy"}
+    return _signature(case, obs, msg)
+
+
+def _signature(case, obs, msg):
     sig = {"msg": (msg or "")[:50]}
     if msg and "Host header is malformed" in msg and "[[" in msg:
         sig["kind"] = "tunnel-ipv6-host-double-brackets"
@@ -277,7 +347,7 @@ def signature(case, obs, msg):
 
 
 def nontrivial(case, obs):
-    if not obs or obs[0] != 1:
+    if not obs or obs[0] not in (1, 2):
         return None
     return hashlib.sha1(repr((case, obs)).encode()).hexdigest()[:16]
 
@@ -356,6 +426,11 @@ def cases(rng, tier):
                     out.append({"url": url, "variant": variant_of(rng, url), "proxy": proxy})
     for u in ("http://example.com/x", "https://example.com./", "http://Example.COM:8080/a?b", "https://a.b.example/"):
         out.append({"url": u, "variant": dot_variant(u), "variant_kind": "dot", "proxy": None})
+    # a redirect to another origin, with and without a forwarding proxy: the second request is for the second URL
+    for proxy in (None, "http"):
+        for u1, u2 in (("http://a.test/start", "http://b.test:81/landing"), ("http://a.test:8080/start", "http://b.test/landing"),
+                       ("http://a.test/start", "http://a.test:81/other-port"), ("http://A.test/start", "http://c.test/x?y=1")):
+            out.append({"url": u1, "variant": None, "redirect_to": u2, "proxy": proxy})
     for _ in range(7000 if tier == "quick" else 200000):
         out.append(one_case(rng))
     return out
